@@ -1132,6 +1132,12 @@ class Interp:
             b = num(int(b))
         if a is NAN or b is NAN:
             return NAN
+        # elementwise arithmetic of 1-D arrays with scalars / equal-length arrays (numpy broadcasting, 1-D only)
+        if isinstance(a, Arr) and (is_num(b) or (isinstance(b, Arr) and len(b.items) == len(a.items))) and not isinstance(op, ast.MatMult):
+            bs = b.items if isinstance(b, Arr) else [b] * len(a.items)
+            return Arr([self.binop(x, op, y, node) for x, y in zip(a.items, bs)])
+        if isinstance(b, Arr) and is_num(a) and not isinstance(op, ast.MatMult):
+            return Arr([self.binop(a, op, y, node) for y in b.items])
         if is_num(a) and is_num(b):
             try:
                 if isinstance(op, ast.Add):
@@ -1907,6 +1913,8 @@ def _decimal(it, args, kw):
 
 def _math_floor(it, args, kw):
     v = args[0]
+    if isinstance(v, Arr):
+        return Arr([_math_floor(it, [x], {}) for x in v.items])
     if is_num(v):
         if v.is_const():
             import math
